@@ -53,6 +53,9 @@ def _split_targs(inner):
     return parts
 
 
+IDENTITY_COMPARATORS = {"CPPTypeCompare"}
+
+
 def container_kind(ct):
     """('ordered-by-address' | 'unordered-ptr' | None) for a canonical type spelling."""
     t = (ct or "").replace("const ", "").strip().rstrip("&").strip()
@@ -68,6 +71,10 @@ def container_kind(ct):
         return "unordered-ptr"
     ncmp = 2 if kind in ("set", "multiset") else 3
     if len(parts) >= ncmp:
+        # CPPTypeCompare orders by CPPDeclaration::operator<, whose is_less() is pointer identity for struct, enum and
+        # other named types (R06.1 lists them): distinct classes come out in address order
+        if parts[ncmp - 1].strip() in IDENTITY_COMPARATORS:
+            return "ordered-by-address"
         return None       # custom comparator
     return "ordered-by-address"
 
